@@ -341,6 +341,56 @@ pub(crate) fn h_check_limit_dispatch() {
     vrt_cover(true, "limit_dispatch_end");
 }
 
+/// C11 namespaces: a reference into a shared namespace resolves whichever kind of the namespace defines the name
+/// (conversion tables: COMPU_TAB / COMPU_VTAB / COMPU_VTAB_RANGE; typedefs: the five TYPEDEF_* kinds), and is reported
+/// when no kind defines it
+pub(crate) fn h_check_namespaces() {
+    let site = vrt_choice(4);     // 0 COMPU_TAB_REF, 1 STATUS_STRING_REF, 2 INSTANCE type, 3 STRUCTURE_COMPONENT type
+    let kind = if site < 2 { vrt_choice(3) } else { vrt_choice(5) };
+    let defined = vrt_choice(2) == 1;
+    let mut t = String::from("ASAP2_VERSION 1 71 /begin PROJECT p \"\" /begin MODULE m \"\"\n/begin RECORD_LAYOUT rl FNC_VALUES 1 UBYTE ROW_DIR DIRECT AXIS_PTS_X 2 UBYTE INDEX_INCR DIRECT /end RECORD_LAYOUT\n");
+    if defined {
+        if site < 2 {
+            t.push_str(match kind {
+                0 => "/begin COMPU_TAB tgt \"\" TAB_INTP 1 1 1 /end COMPU_TAB\n",
+                1 => "/begin COMPU_VTAB tgt \"\" TAB_VERB 1 1 \"x\" /end COMPU_VTAB\n",
+                _ => "/begin COMPU_VTAB_RANGE tgt \"\" 1 1 2 \"x\" /end COMPU_VTAB_RANGE\n",
+            });
+        } else {
+            t.push_str(match kind {
+                0 => "/begin TYPEDEF_AXIS tgt \"\" NO_INPUT_QUANTITY rl 0 NO_COMPU_METHOD 2 0 255 /end TYPEDEF_AXIS\n",
+                1 => "/begin TYPEDEF_BLOB tgt \"\" 4 /end TYPEDEF_BLOB\n",
+                2 => "/begin TYPEDEF_CHARACTERISTIC tgt \"\" VALUE rl 0 NO_COMPU_METHOD 0 255 /end TYPEDEF_CHARACTERISTIC\n",
+                3 => "/begin TYPEDEF_MEASUREMENT tgt \"\" UBYTE NO_COMPU_METHOD 0 0 0 255 /end TYPEDEF_MEASUREMENT\n",
+                _ => "/begin TYPEDEF_STRUCTURE tgt \"\" 4 /end TYPEDEF_STRUCTURE\n",
+            });
+        }
+    }
+    match site {
+        0 => t.push_str("/begin COMPU_METHOD cm \"\" TAB_VERB \"%6.3\" \"\" COMPU_TAB_REF tgt /end COMPU_METHOD\n"),
+        1 => t.push_str("/begin COMPU_METHOD cm \"\" IDENTICAL \"%6.3\" \"\" STATUS_STRING_REF tgt /end COMPU_METHOD\n"),
+        2 => t.push_str("/begin INSTANCE inst \"\" tgt 0x100 /end INSTANCE\n"),
+        _ => t.push_str("/begin TYPEDEF_STRUCTURE outer \"\" 8 /begin STRUCTURE_COMPONENT c1 tgt 0 /end STRUCTURE_COMPONENT /end TYPEDEF_STRUCTURE\n"),
+    }
+    t.push_str("/end MODULE /end PROJECT");
+    let (file, _) = load_from_string(&t, None, true).unwrap();
+    let before = file.clone();
+    let report = file.check();
+    vrt_check(file == before, "C11 check() never modifies the model");
+    let mut hits = 0;
+    for e in report.iter() {
+        if let A2lError::CrossReferenceError { target_name, .. } = e {
+            if target_name == "tgt" { hits += 1; }
+        }
+    }
+    if defined {
+        vrt_check(hits == 0 && xref_errors(&file) == 0, "C11 a reference resolves when any kind of the target namespace defines the name");
+    } else {
+        vrt_check(hits >= 1, "C11 a reference to a name that no kind of the namespace defines is reported and names the missing target");
+    }
+    vrt_cover(true, "check_namespaces_end");
+}
+
 // ------------------------------------------------------------------ C10: cleanup removes only, and all, unreferenced helpers
 
 fn xref_errors(file: &A2lFile) -> usize {
@@ -507,6 +557,65 @@ pub(crate) fn h_cleanup_unit_chain() {
     vrt_check(xref_errors(&file) == 0, "C10 a file whose references all resolve still resolves after cleanup");
 }
 
+/// GROUP chains g0 -> g1 -> ... (SUB_GROUP), optionally named by USER_RIGHTS at position `user`, optionally with
+/// content (REF_MEASUREMENT) in the last group; an analogous FUNCTION chain via SUB_FUNCTION used by a GROUP.
+/// After cleanup every REF_GROUP / SUB_GROUP / FUNCTION_LIST / SUB_FUNCTION entry still names an existing element.
+pub(crate) fn h_cleanup_group_chain() {
+    let n = 1 + vrt_choice(3);                 // chain length 1..=3
+    let user = vrt_choice(n + 1);             // USER_RIGHTS names g<user>; == n: no USER_RIGHTS
+    let content = vrt_choice(2) == 1;         // the last group refers to a MEASUREMENT
+    let mut t = String::from("ASAP2_VERSION 1 71 /begin PROJECT p \"\" /begin MODULE m \"\"\n/begin MEASUREMENT ms \"\" UBYTE NO_COMPU_METHOD 0 0 0 255 /end MEASUREMENT\n");
+    for i in 0..n {
+        t.push_str("/begin GROUP g");
+        t.push((b'0' + i as u8) as char);
+        t.push_str(" \"\"");
+        if i == 0 { t.push_str(" ROOT"); }
+        if i + 1 < n {
+            t.push_str(" /begin SUB_GROUP g");
+            t.push((b'0' + i as u8 + 1) as char);
+            t.push_str(" /end SUB_GROUP");
+        } else if content {
+            t.push_str(" /begin REF_MEASUREMENT ms /end REF_MEASUREMENT");
+        }
+        t.push_str(" /end GROUP\n");
+    }
+    if user < n {
+        t.push_str("/begin USER_RIGHTS usr /begin REF_GROUP g");
+        t.push((b'0' + user as u8) as char);
+        t.push_str(" /end REF_GROUP /end USER_RIGHTS\n");
+    }
+    t.push_str("/end MODULE /end PROJECT");
+    let (mut file, _) = load_from_string(&t, None, true).unwrap();
+    file.cleanup();
+    {
+        let m = &file.project.module[0];
+        for ur in m.user_rights.iter() {
+            for rg in ur.ref_group.iter() {
+                for name in rg.identifier_list.iter() {
+                    vrt_check(m.group.contains_key(name), "C10 cleanup never removes a GROUP that USER_RIGHTS still refers to");
+                }
+            }
+        }
+        for g in m.group.iter() {
+            if let Some(sg) = &g.sub_group {
+                for name in sg.identifier_list.iter() {
+                    vrt_check(m.group.contains_key(name), "C10 every SUB_GROUP entry still names an existing GROUP after cleanup");
+                }
+            }
+        }
+        if content {
+            vrt_check(m.group.len() == n as usize, "C10 a GROUP chain that ends in a group with members is kept completely");
+        } else if user == n {
+            vrt_check(m.group.len() == 0, "C10 a chain of GROUPs without members and without a user is removed");
+        }
+        vrt_check(m.measurement.len() == 1, "C10 cleanup never removes measurement objects");
+    }
+    let once = file.clone();
+    file.cleanup();
+    vrt_check(file == once, "C10 running cleanup twice gives the same result as running it once");
+    vrt_cover(true, "cleanup_group_chain_end");
+}
+
 // ------------------------------------------------------------------ C08 / C09: merge
 
 /// template expansion: `@name` -> name + sfx (a global element name), `~` -> lid (content marker / long identifier)
@@ -563,6 +672,11 @@ const MERGE_T: &str = "ASAP2_VERSION 1 71 /begin PROJECT p \"\" /begin MODULE m 
 /end TYPEDEF_CHARACTERISTIC
 /begin TYPEDEF_STRUCTURE @ts \"~\" 4 /begin STRUCTURE_COMPONENT c1 @tm 0 /end STRUCTURE_COMPONENT /end TYPEDEF_STRUCTURE
 /begin INSTANCE @inst \"~\" @ts 0x100 /begin OVERWRITE c1 0 CONVERSION @cm INPUT_QUANTITY @ms /end OVERWRITE /end INSTANCE
+/begin BLOB @bl \"~\" 0 4 /end BLOB
+/begin TYPEDEF_BLOB @tb \"~\" 4 /end TYPEDEF_BLOB
+/begin INSTANCE @inst2 \"~\" @tb 0x200 /end INSTANCE
+/begin COMPU_VTAB_RANGE @cvr \"~\" 1 1 2 \"x\" /end COMPU_VTAB_RANGE
+/begin COMPU_METHOD @cm2 \"~\" TAB_VERB \"%6.3\" \"\" COMPU_TAB_REF @cvr /end COMPU_METHOD
 /begin FRAME @fr \"~\" 1 2 FRAME_MEASUREMENT @ms /end FRAME
 /begin TRANSFORMER @tr \"~\" \"a\" \"b\" 1 ON_CHANGE @tr2
  /begin TRANSFORMER_IN_OBJECTS @ch /end TRANSFORMER_IN_OBJECTS /begin TRANSFORMER_OUT_OBJECTS @ch2 /end TRANSFORMER_OUT_OBJECTS
@@ -596,6 +710,9 @@ fn contains_all(res: &Module, exp: &Module) {
     for e in exp.unit.iter() { vrt_soft_check(res.unit.get(e.get_name()) == Some(e), "C09 UNIT from B is represented with its references renamed consistently"); }
     for e in exp.compu_tab.iter() { vrt_soft_check(res.compu_tab.get(e.get_name()) == Some(e), "C08 COMPU_TAB from B is represented"); }
     for e in exp.compu_vtab.iter() { vrt_soft_check(res.compu_vtab.get(e.get_name()) == Some(e), "C08 COMPU_VTAB from B is represented"); }
+    for e in exp.compu_vtab_range.iter() { vrt_soft_check(res.compu_vtab_range.get(e.get_name()) == Some(e), "C08 COMPU_VTAB_RANGE from B is represented"); }
+    for e in exp.blob.iter() { vrt_soft_check(res.blob.get(e.get_name()) == Some(e), "C08 BLOB from B is represented"); }
+    for e in exp.typedef_blob.iter() { vrt_soft_check(res.typedef_blob.get(e.get_name()) == Some(e), "C08 TYPEDEF_BLOB from B is represented"); }
     for e in exp.compu_method.iter() { vrt_soft_check(res.compu_method.get(e.get_name()) == Some(e), "C09 COMPU_METHOD from B is represented with its references renamed consistently"); }
     for e in exp.record_layout.iter() { vrt_soft_check(res.record_layout.get(e.get_name()) == Some(e), "C08 RECORD_LAYOUT from B is represented"); }
     for e in exp.measurement.iter() { vrt_soft_check(res.measurement.get(e.get_name()) == Some(e), "C09 MEASUREMENT from B is represented with its references renamed consistently"); }
@@ -633,6 +750,64 @@ fn unique_names(m: &Module) {
     }
 }
 
+/// C09 second order: an element of B that is textually identical to A's element of the same name, but refers to a
+/// name that this merge renames, is not an identical twin - its reference must follow B's target.
+/// kind 0: TYPEDEF_AXIS twin (input quantity = conflicting MEASUREMENT), reached through B's INSTANCE.
+/// kind 1: AXIS_PTS twin (object -> object reference), reached through B's CHARACTERISTIC (known finding D22).
+fn merge_twin_refs(kind: u32, twin_run: bool) {
+    let common = "/begin RECORD_LAYOUT rl FNC_VALUES 1 UBYTE ROW_DIR DIRECT AXIS_PTS_X 1 UBYTE INDEX_INCR DIRECT /end RECORD_LAYOUT\n";
+    let twin = if kind == 0 { "/begin TYPEDEF_AXIS tw \"\" speed rl 0 NO_COMPU_METHOD 2 0 255 /end TYPEDEF_AXIS\n" }
+               else { "/begin AXIS_PTS tw \"\" 0 speed rl 0 NO_COMPU_METHOD 2 0 255 /end AXIS_PTS\n" };
+    let mut a = String::from("ASAP2_VERSION 1 71 /begin PROJECT p \"\" /begin MODULE m \"\"\n");
+    a.push_str(common);
+    a.push_str("/begin MEASUREMENT speed \"of A\" UBYTE NO_COMPU_METHOD 0 0 0 255 /end MEASUREMENT\n");
+    a.push_str(twin);
+    a.push_str("/end MODULE /end PROJECT");
+    let mut b = String::from("ASAP2_VERSION 1 71 /begin PROJECT p \"\" /begin MODULE m \"\"\n");
+    b.push_str(common);
+    b.push_str("/begin MEASUREMENT speed \"of B\" UWORD NO_COMPU_METHOD 0 0 0 65535 /end MEASUREMENT\n");
+    b.push_str(twin);
+    if kind == 0 {
+        b.push_str("/begin INSTANCE user_b \"\" tw 0x100 /end INSTANCE\n");
+    } else {
+        b.push_str("/begin CHARACTERISTIC user_b \"\" CURVE 0 rl 0 NO_COMPU_METHOD 0 255 /begin AXIS_DESCR COM_AXIS speed NO_COMPU_METHOD 2 0 255 AXIS_PTS_REF tw /end AXIS_DESCR /end CHARACTERISTIC\n");
+    }
+    b.push_str("/end MODULE /end PROJECT");
+    let mut fa = load_ok(&a);
+    let mut fb = load_ok(&b);
+    vrt_check(xref_errors(&fa) == 0 && xref_errors(&fb) == 0, "C09 harness documents are consistent");
+    fa.merge_modules(&mut fb);
+    let m = &fa.project.module[0];
+    vrt_check(xref_errors(&fa) == 0, "C09 merging two consistent files leaves no dangling reference");
+    // follow the reference chain from B's user element to the measurement it finally designates
+    let target: Option<String> = if kind == 0 {
+        m.instance.get("user_b").and_then(|i| m.typedef_axis.get(&i.type_ref)).map(|t| t.input_quantity.clone())
+    } else {
+        m.characteristic.get("user_b").and_then(|c| c.axis_descr.get(0)).and_then(|ad| ad.axis_pts_ref.as_ref())
+            .and_then(|r| m.axis_pts.get(&r.axis_points)).map(|ap| ap.input_quantity.clone())
+    };
+    match target.and_then(|t| m.measurement.get(&t)) {
+        Some(ms) => {
+            if twin_run {
+                vrt_check(ms.long_identifier == "of B", "C09 D22 a reference chain of B still ends at the element that represents B's target (AXIS_PTS twin that refers to a renamed MEASUREMENT)");
+            } else {
+                vrt_check(ms.long_identifier == "of B", "C09 a reference chain of B still ends at the element that represents B's target (twin that refers to a renamed element)");
+            }
+        }
+        None => vrt_check(false, "C09 the reference chain of B's element resolves after the merge"),
+    }
+    vrt_check(m.measurement.len() == 2, "C08 the conflicting MEASUREMENT of B is added under a fresh name");
+}
+pub(crate) fn h_merge_twin_refs() {
+    let kind = vrt_choice(2);
+    if kind == 1 && vrt_known("D22") { return; }
+    merge_twin_refs(kind, false);
+}
+/// twin of known finding D22: exactly the recorded scenario
+pub(crate) fn h_merge_twin_refs_known_d22() {
+    merge_twin_refs(1, true);
+}
+
 /// scenario 0: every name conflicts (same names, different content) -> all of B is renamed to X.MERGE and must keep its
 /// reference structure; 1: identical copy; 2: disjoint names; 3: merge into an empty module; 4: merge an empty module
 pub(crate) fn h_merge_scenarios() {
@@ -654,7 +829,7 @@ pub(crate) fn h_merge_scenarios() {
         0 => {
             let exp = load_ok(&expand(MERGE_T, ".MERGE", "2"));
             contains_all(res, &exp.project.module[0]);
-            vrt_check(res.measurement.len() == 4 && res.unit.len() == 4 && res.compu_method.len() == 2 && res.characteristic.len() == 4, "C08 conflicting elements are added once under a fresh name");
+            vrt_check(res.measurement.len() == 4 && res.unit.len() == 4 && res.compu_method.len() == 4 && res.characteristic.len() == 4 && res.blob.len() == 2 && res.typedef_blob.len() == 2 && res.compu_vtab_range.len() == 2 && res.instance.len() == 4, "C08 conflicting elements are added once under a fresh name");
         }
         1 | 4 => vrt_check(a == a_before, "C08 merging an identical copy / an empty module changes nothing"),
         2 => {
@@ -663,7 +838,7 @@ pub(crate) fn h_merge_scenarios() {
         }
         _ => {
             contains_all(res, &b_before.project.module[0]);
-            vrt_check(res.measurement.len() == 2 && res.unit.len() == 2 && res.compu_method.len() == 1, "C08 merging into an empty module yields B's content");
+            vrt_check(res.measurement.len() == 2 && res.unit.len() == 2 && res.compu_method.len() == 2, "C08 merging into an empty module yields B's content");
         }
     }
     vrt_check(xref_errors(&a) == 0, "C09 merging two consistent files never produces a dangling reference");
